@@ -89,6 +89,11 @@ def oracle_self(sj, out):
 
 
 def self_case(rng, tier):
+    if rng.random() < 0.06:
+        # cell, structure and pattern typed (and constructed) with plain ints
+        ic = G.make_int_case(rng, tier)
+        return {"op": "c08-self", "s": ic["s"], "p": ic["p"], "atol": ic["atol"], "seed": ic["seed"], "info": ic["info"],
+                "int_typed": True}
     if rng.random() < 0.08:
         # occurrences that SHARE an atom: a centre with 3–4 partners, two-atom pattern, all or part of them "replaced"
         star = G.make_star_case(rng, tier)
@@ -187,8 +192,9 @@ def ring_case(rng, tier):
 
 
 def run_self(case):
-    return findlib.run_replace(case["s"], case["p"], case["p"], atol=case["atol"], seed=case["seed"],
-                               fraction=case.get("fraction", 1.0), replace_all=case.get("replace_all", False))
+    with C5.int_constructed([case["s"], case["p"]] if case.get("int_typed") else []):
+        return findlib.run_replace(case["s"], case["p"], case["p"], atol=case["atol"], seed=case["seed"],
+                                   fraction=case.get("fraction", 1.0), replace_all=case.get("replace_all", False))
 
 
 def self_all_case(rng, tier):
@@ -319,6 +325,16 @@ def multiset(j):
 
 
 def site_case(rng, tier):
+    if rng.random() < 0.05:
+        # integer-typed structure / cell / site patterns (B = A with one element substituted, whole-number coordinates)
+        ic = G.make_int_case(rng, tier)
+        bj = json.loads(json.dumps(ic["p"]))
+        k = rng.randrange(len(bj["atoms"]))
+        bj["types"] = dict(bj["types"], elem=bj["types"]["elem"] + ["Zn"], label=bj["types"]["label"] + ["Zn"],
+                           mass=bj["types"]["mass"] + [core.q(65.38)])
+        bj["atoms"][k]["ty"] = len(bj["types"]["elem"]) - 1
+        return {"op": "c08-site", "s": ic["s"], "a": ic["p"], "b": bj, "atol": ic["atol"], "seed": ic["seed"],
+                "single": False, "info": ic["info"], "variant": "int-typed", "int_typed": True}
     single = rng.random() < 0.4
     variant = "plain"
     kw = {}
@@ -380,6 +396,14 @@ def site_case(rng, tier):
 
 
 def run_site(case):
+    if case.get("int_typed"):
+        with C5.int_constructed([case["s"], case["a"], case["b"]]):
+            o1 = findlib.run_replace(case["s"], case["a"], case["b"], atol=case["atol"], seed=case["seed"],
+                                     fraction=case.get("fraction", 1.0))
+            if "ok" not in o1:
+                return o1, None
+            o2 = findlib.run_replace(o1["ok"], case["b"], case["a"], atol=case["atol"], seed=case["seed"] + 1)
+        return o1, o2
     o1 = findlib.run_replace(case["s"], case["a"], case["b"], atol=case["atol"], seed=case["seed"],
                              fraction=case.get("fraction", 1.0))
     if "ok" not in o1:
@@ -555,6 +579,7 @@ def do_self(ctx, case, ops):
     ctx.count("self")
     ctx.count("self:cell:" + case["info"]["cell"])
     ctx.count("self:star:%s" % bool(case["info"].get("star")))
+    ctx.count("self:int-typed:%s" % bool(case.get("int_typed")))
     ctx.count("unwrapped:%s" % bool(case["info"].get("unwrapped")))
     ctx.count("cell-spelling:%s" % (case["info"].get("cellvar") or "standard"))
     ctx.count("atol:%g" % case["atol"])
